@@ -635,3 +635,48 @@ pub fn macro_extra_profile() -> Space<Prog> {
     let layouts = Space::of(vec![Layout::OwnLine, Layout::Inline, Layout::IndentCrlf]);
     Space::of(shapes).product(layouts).map(|((items, pre), layout)| Prog { items, layout, pre })
 }
+
+/// macros whose text holds compiler directives: using one executes them (the expansion is re-scanned
+/// as source text), so the define table changes in the middle of a line and inside a branch
+pub fn directive_body_profile() -> Space<Prog> {
+    let bodies: Vec<&'static str> = vec![
+        "`undef A",
+        "`undefineall",
+        "`define A 1",
+        "`define B",
+        "p `undef A q `undef B r",
+        "`ifdef A `undef A `else `define A 1 \\\n `endif",
+        "x `ifndef B y `define B 2 \\\n `endif z",
+        "`ifdef A `ifdef B `undef B `endif `elsif B `undef B `else `define B \\\n `endif w",
+    ];
+    let prefixes: Vec<Vec<Item>> = vec![vec![], vec![def("A", "1")], vec![def("B", "")], vec![def("A", "1"), def("B", "2")]];
+    let elsifs: Vec<Option<&'static str>> = vec![None, Some("A"), Some("B")];
+    Space::of(bodies)
+        .product(Space::of(vec![false, true]))
+        .product(Space::of(prefixes))
+        .product(Space::of(vec![0usize, 1, 2, 3]))
+        .product(Space::of(vec![false, true]))
+        .product(Space::of(vec!["A", "B"]))
+        .product(Space::of(elsifs))
+        .product(Space::of(vec![Layout::OwnLine, Layout::Inline]))
+        .map(|(((((((body, from_caller), prefix), place), neg), name), elsif), layout)| {
+            let m = || Item::Usage { name: "M".into(), args: None };
+            let mut items = prefix;
+            let mut pre = vec![];
+            if from_caller {
+                pre.push(("M".to_string(), Some(body.replace("\\\n", "\n"))));
+            } else {
+                items.push(def("M", body));
+            }
+            items.push(Item::Text);
+            if place == 0 {
+                items.push(m());
+                items.push(Item::Text);
+            }
+            let b = |k: usize| if place == k { vec![Item::Text, m(), Item::Text] } else { vec![Item::Text] };
+            items.push(Item::Cond { neg, name: name.into(), then: b(1), elsifs: elsif.map(|n| (n.to_string(), b(3))).into_iter().collect(), els: Some(b(2)) });
+            items.push(Item::Text);
+            items.extend(probes());
+            Prog { items, layout, pre }
+        })
+}
